@@ -87,6 +87,8 @@ def tsub(a, b):
         return a if b == 0 else a - term(b)
     if ca:
         return -b if a == 0 else term(a) - b
+    if a.get_id() == b.get_id():
+        return F0
     return a - b
 
 
